@@ -15,8 +15,9 @@ VERIF = os.path.dirname(os.path.dirname(os.path.abspath(__file__)))
 REPO = os.environ.get("VERIF_REPO", "/repo")
 EXECUTOR = os.environ.get("VERIF_EXECUTOR", "/venv/bin/python")
 PROVER = os.environ.get("VERIF_PROVER", "python3-vt")
-REPLAYS = os.path.join(VERIF, "replays")
-EVIDENCE = os.path.join(VERIF, "evidence")
+_SCRATCH = os.path.realpath(REPO) != "/repo"  # a run against a scratch worktree (seeded patches) must not touch the real evidence
+REPLAYS = os.path.join(VERIF, ".work", "replays-scratch") if _SCRATCH else os.path.join(VERIF, "replays")
+EVIDENCE = os.path.join(VERIF, ".work", "evidence-scratch") if _SCRATCH else os.path.join(VERIF, "evidence")
 KNOWN = os.path.join(VERIF, "KNOWN_FINDINGS.json")
 NCPU = int(os.environ.get("VERIF_NCPU", str(os.cpu_count() or 4)))
 
